@@ -213,6 +213,8 @@ def run(tier, replay):
         for f in (1.0, 0.8, 0.55, 0.3, 0.12):
             ws += [round(max(0.0, c - f * c), 6), round(min(e0, c + f * (e0 - c)), 6)]
         wl.append("W %s.%d.%d %s %d %d %d %s" % (ent["name"], il, m, ent["name"], il, m, len(ws) // 2, " ".join(repr(x) for x in ws)))
+        # the same chain on ONE caller-owned parameter block of the legacy interface (genbbsub ISTART_INIT again and again)
+        wl.append("V %s.%d.%d.plumbing %s %d %d %d %s" % (ent["name"], il, m, ent["name"], il, m, len(ws) // 2, " ".join(repr(x) for x in ws)))
     wtf = os.path.join(wd, "win.ndjson")
     rc, out = vlib.sh([bexe, "--win-trace", wtf], input="\n".join(wl) + "\n", timeout=1800, env=vlib.harness_env("plain"))
     wres = [json.loads(l) for l in out.splitlines() if l.startswith("{")]
@@ -240,6 +242,31 @@ def run(tier, replay):
         ck.violation("window-ratio:%s" % ident, "Window.tla (ratio >= 1, = 1 for the full range, monotone under narrowing) rejects the nested windows of %s: %s" % (
             ident, " ".join(ls[i:j])[:600]), {"chain": ls[i:j]})
         open(wtf, "w").write("\n".join(ls[:i] + ls[j:]) + "\n")
+    # the ratios (and clamped windows) reported by a block in use are those of a fresh generator for the same request
+    chains_seen = {}
+    cur = None
+    for x in open(wtf).read().splitlines():
+        o = json.loads(x)
+        if o["e"] == "Reset":
+            cur = chains_seen.setdefault(o["id"], [])
+        elif cur is not None:
+            cur.append((o["e"], o.get("lo"), o.get("hi"), o["r"]))
+    for cid, seq in chains_seen.items():
+        if cid.endswith(".plumbing") or (cid + ".plumbing") not in chains_seen:
+            continue
+        pl = chains_seen[cid + ".plumbing"]
+        for i_, (a_, b_) in enumerate(zip(seq, pl)):
+            # decay0_generator stores the window bounds in single precision: bounds agree to 1e-6 relative (a few units of
+            # 0.01 eV), the ratio to 1e-3 relative (a window deep in a tail amplifies that rounding)
+            def close(u, v, rel, abs_):
+                return (u is None and v is None) or (u is not None and v is not None and abs(u - v) <= max(abs_, rel * max(abs(u), abs(v))))
+            same = a_[0] == b_[0] and close(a_[1], b_[1], 1e-6, 30) and close(a_[2], b_[2], 1e-6, 30) and close(a_[3], b_[3], 1e-3, 2)
+            if not same:
+                ck.violation("window-ratio-block-in-use:%s" % cid,
+                             "request #%d of the nested-window chain of %s: a parameter block of the legacy interface that is initialised again "
+                             "(genbbsub ISTART_INIT, same mode) reports window/ratio %s, a fresh generator reports %s" % (i_, cid, b_, a_),
+                             {"chain": [list(t) for t in seq], "block_in_use": [list(t) for t in pl]})
+                break
     ck.set("window_chains", len(wl))
     ck.set("evaluations", nevents + len(wl))
     ck.set("traces_validated_against_impl", nevents + len(wl))
